@@ -5,7 +5,9 @@ collection names) and the pipeline object (value and identity of every nested co
 after; the SAME pipeline object run twice; every `$facet` branch against the same sub-pipeline run
 alone on the stage's input; `$out` target == returned == prefix output (+ generated `_id`s);
 `$sample` output a sub-multiset of its input of the requested size; scribbling on the returned
-documents must not reach the store.
+documents must not reach the store; a stage other than `$lookup` / `$out` / `$facet` leaves the
+documents it is HANDED as they were (`$addFields`/`$set` on dotted names, `$unwind` with an index:
+theorems `pure_stage_writes_nothing`, `stage_input_unchanged`).
 
 Correspondence (cases of the modelled fragment): every query of the case is also answered by the
 heap model `MongoModel.AggHeap` (driver command `c16`), and the answers — outputs of both runs, the
@@ -26,7 +28,8 @@ import gen_c16
 import wire
 
 RULE = ('case = one generated pipeline (1-4 stages + optional $out; $facet with 2-3 branches of '
-        '0-3 stages; grammar weighted towards document-editing stages; in the rich stream every '
+        '0-3 stages; grammar weighted towards document-editing stages; now and then a stage '
+        'document with no or two operators; in the rich stream every '
         'stage that takes a document of options is generated with all the options it accepts: '
         '$graphLookup with restrictSearchWithMatch / depthField / maxDepth / expression-valued '
         'startWith / dotted connect fields, $bucket with default / output, and every filter '
@@ -35,7 +38,8 @@ RULE = ('case = one generated pipeline (1-4 stages + optional $out; $facet with 
         'over a generated state of '
         'two or three collections, run twice from one pipeline object; non-trivial = the pipeline '
         'contains a document-editing stage ($addFields/$set on a dotted path, $lookup, '
-        '$graphLookup, $unwind, $sample, $out, or $facet with an editing branch) and the first run '
+        '$graphLookup, $unwind (with or without includeArrayIndex), $sample, $out, or $facet with '
+        'an editing branch) and the first run '
         'does not raise; distinct = by hash of (state, pipeline)')
 
 ASSUMPTIONS = [
@@ -52,6 +56,11 @@ ASSUMPTIONS = [
     'the collections are not compared with the model, which does not keep the writes a failed '
     'call had already made; runs containing $sample are compared on raised / did not raise and '
     'on the pipeline object only',
+    'input-unchanged is judged per stage on the real code for the first two top-level stages '
+    'other than $lookup / $out / $facet / $sample whose prefix is deterministic; a $unwind whose '
+    'includeArrayIndex is a dotted name going through the unwound field itself writes the index '
+    'into the re-attached original array element — an object of the stage\'s input, never of the '
+    'store or of the caller (aggregate works on copies): counted, not judged, outside the heap model',
     'repeatability is judged on two consecutive runs on the same database; when $out writes a '
     'collection the pipeline reads, the second run sees other data and is not compared; with '
     '$sample in the pipeline the two runs are two draws: their answers (and whether a later stage '
@@ -59,11 +68,45 @@ ASSUMPTIONS = [
 ]
 
 EDITING = {'$lookup', '$graphLookup', '$unwind', '$sample', '$out', '$addFields', '$set'}
+# stages that write into the documents they are handed / whose input is not compared
+NOT_INPUT_JUDGED = {'$lookup', '$out', '$facet', '$sample', None}
 # classes by which the judge NAMES a failure (all four were known findings of /repo and are
 # repaired; a class is excused only while known_findings.json lists it with status "known",
 # otherwise the named failure is a VIOLATION)
 KNOWN_IDS = ('sample-pops-size', 'literal-written', 'facet-sibling-nested-addfields',
              'facet-sibling-lookup')
+
+
+# Regression cases for the repairs of mongomock/aggregate.py this check FOLLOWS (defects of C03's
+# value-level properties; here: the edit discipline they changed).  They run through every oracle
+# and through the correspondence on every run, like the witnesses of C16's own fixed findings.
+_S = {'a': [{'_id': 1, 'k': 1, 'a': {'x': 1, 'y': {'z': 2}}, 'arr': [{'p': 0}, {'p': 1}]},
+            {'_id': 2, 'k': 2, 'arr': []}, {'_id': 3, 'a': 5, 'arr': None}, {'_id': 4, 'k': 0}],
+      'b': [{'_id': 10, 'k': 1}], 'indexes': []}
+FOLLOWED = [
+    # eb8f57c: a field aliased to a sub-document, then written through a dotted name
+    ('eb8f57c', [{'$addFields': {'b': '$a', 'b.z': 9}}]),
+    ('eb8f57c', [{'$set': {'a.w': '$a', 'a.y.w': '$a.y'}}, {'$addFields': {'a.w.q': 1}}]),
+    ('eb8f57c', [{'$facet': {'x': [{'$addFields': {'a.y.w': 9, 'n': '$a'}}, {'$set': {'n.x': 7}}],
+                             'y': [{'$match': {}}]}}]),
+    # 36bb490 / 5c2730e: includeArrayIndex on kept documents, dotted index names
+    ('36bb490', [{'$unwind': {'path': '$arr', 'preserveNullAndEmptyArrays': True,
+                              'includeArrayIndex': 'ix'}}]),
+    ('5c2730e', [{'$unwind': {'path': '$arr', 'preserveNullAndEmptyArrays': True,
+                              'includeArrayIndex': 'a.y.ix'}}]),
+    ('5c2730e', [{'$facet': {'x': [{'$unwind': {'path': '$arr', 'preserveNullAndEmptyArrays': True,
+                                                'includeArrayIndex': 'm.ix'}}],
+                             'y': [{'$unwind': {'path': '$arr', 'includeArrayIndex': 'a.ix'}}]}}]),
+    # 482a7bb: $count over no documents
+    ('482a7bb', [{'$match': {'k': 7}}, {'$count': 'n'}]),
+    # 2432305: stage documents with no / several operators
+    ('2432305', [{'$match': {}}, {}]),
+    ('2432305', [{'$addFields': {'a.w': 1}, '$limit': 1}]),
+    # 2ed0182: $limit / $skip arguments
+    ('2ed0182', [{'$limit': 0}]),
+    ('2ed0182', [{'$skip': -1}]),
+    ('2ed0182', [{'$facet': {'x': [{'$limit': 1}], 'y': [{'$skip': 1}, {'$limit': 2}]}}]),
+]
 
 
 def dec(s):
@@ -89,10 +132,14 @@ def queries(case):
     st, p = case['state'], case['pipeline']
     qs = [('main', ('run', 2, st, 'a', p))]
     nf = 0
+    nin = 0
     for i, stage in enumerate(p):
-        op = list(stage.keys())[0]
+        op = L.first_op(stage)
         if not deterministic(p[:i]):
             break
+        if len(stage) == 1 and op not in NOT_INPUT_JUDGED and nin < 2:
+            nin += 1
+            qs.append(('stagein:%d' % i, ('stagein', st, 'a', p[:i], [stage])))
         if op == '$facet' and nf < 2:
             nf += 1
             qs.append(('facet_in:%d' % i, ('run', 1, st, 'a', p[:i])))
@@ -114,12 +161,16 @@ def branch_queries(case, answers):
 def py_answer(q):
     if q[0] == 'run':
         return L.py_run(*q[1:])
+    if q[0] == 'stagein':
+        return L.py_stagein(*q[1:]), None
     return L.py_proc(*q[1:]), None
 
 
 def line_of(q):
     if q[0] == 'run':
         return L.run_line(*q[1:])
+    if q[0] == 'stagein':
+        return L.stagein_line(*q[1:])
     return L.proc_line(*q[1:])
 
 
@@ -267,6 +318,24 @@ class Judge(object):
                 if target not in reads and not is_err(r2) and store_t != dec(r2):
                     self.bad(case, '$out: the target collection differs from the output',
                              {'target': main['store'][L.COLLS.index(target)], 'returned': r2})
+        # O7 the documents a stage is handed are left alone
+        for tag in ans:
+            if not tag.startswith('stagein:'):
+                continue
+            a = ans[tag]
+            if 'input' not in a:
+                continue
+            i = int(tag.split(':')[1])
+            if L.index_through_unwound(p[i]):
+                self.checks['input_not_judged_index_through_unwound_field'] += 1
+                continue
+            self.checks['input_unchanged'] += 1
+            if a['input'] != a['input_before'] or not a.get('input_ids_same', True):
+                self.bad(case, 'stage %d (%s) changed the documents it was handed'
+                         % (i, L.first_op(p[i])),
+                         {'input_before': a['input_before'], 'input_after': a['input'],
+                          'stage_output': a['res'][0]})
+                verdicts.append('input:%d' % i)
         # O6 $sample
         for tag in ans:
             if not tag.startswith('sample_out:'):
@@ -327,7 +396,7 @@ def run_cases(ctx, cases, judge, use_model, stats):
     if use_model and lines:
         out = wire.run_driver(lines)
         for (c, tag), o in zip(where, out):
-            m = L.parse_model(o)
+            m = L.parse_stagein(o) if tag.startswith('stagein:') else L.parse_model(o)
             py = c['py'][tag]
             if L.unmodelled(m):
                 stats['model_unmodelled'] += 1
@@ -351,7 +420,7 @@ def run_cases(ctx, cases, judge, use_model, stats):
                 stats['model_failed_run_state_not_compared'] += 1
                 diff = []
             else:
-                diff = [f for f in ('res', 'pipes', 'store') if f in py and py[f] != m.get(f)]
+                diff = [f for f in ('res', 'pipes', 'store', 'input') if f in py and py[f] != m.get(f)]
             if diff:
                 stats['model_mismatch'] += 1
                 if len(stats['mismatch_samples']) < 5:
@@ -391,7 +460,11 @@ def run(ctx, proof, driver_ok):
     # known witnesses first (corpus)
     corpus = [{'state': e['witness']['state'], 'pipeline': e['witness']['pipeline'],
                'stream': 'model'} for e in common.load_known('C16') if 'witness' in e]
-    run_cases(ctx, corpus, judge, driver_ok, stats)
+    corpus += [{'state': copy.deepcopy(_S), 'pipeline': copy.deepcopy(p), 'stream': 'model'}
+               for _, p in FOLLOWED]
+    for c in run_cases(ctx, corpus, judge, driver_ok, stats):
+        if c.get('unmodelled'):
+            stats['corpus_unmodelled'] += 1
     while done < n and not ctx.too_many():
         cases = [gen_case(rng, done + k) for k in range(min(400, n - done))]
         done += len(cases)
